@@ -17,13 +17,13 @@ const HEADER: usize = 64;
 #[derive(Clone, Debug)]
 struct SendAt { at_us: u64, size: usize, id: u16 }
 #[derive(Clone, Debug)]
-struct Scenario { bitrate: usize, latency_us: u64, policy: i64 /* -2 Drop, -1 Queue(None), >=0 Queue(Some(limit)) */, sends: Vec<SendAt>, consume_id: Option<u16> }
+struct Scenario { bitrate: usize, latency_us: u64, policy: i64 /* -2 Drop, -1 Queue(None), >=0 Queue(Some(limit)) */, sends: Vec<SendAt>, consume_id: Option<u16>, end_err: bool }
 
 // what was observed: ("start"|"incoming"|"end"|"handle", kind, id, time_ns)
 static LOG: Mutex<Vec<(&'static str, u16, u16, u64)>> = Mutex::new(Vec::new());
 static SENDS: Mutex<Vec<SendAt>> = Mutex::new(Vec::new());
 static CONSUME: Mutex<Option<u16>> = Mutex::new(None);
-static CUR: Mutex<(u16, u16)> = Mutex::new((0, 0));
+static END_ERR: Mutex<bool> = Mutex::new(false);
 
 fn now_ns() -> u64 { SimTime::now().as_nanos() as u64 }
 
@@ -56,6 +56,10 @@ impl Module for Node {
         for s in sends.iter() {
             schedule_in(Message::default().kind(TIMER).id(s.id), StdDuration::from_micros(s.at_us));
         }
+    }
+    fn at_sim_end(&mut self) -> Result<(), RuntimeError> {
+        // a tear-down that reports an error must still be bracketed by event_start / event_end
+        if *END_ERR.lock().unwrap() { Err(RuntimeError::empty()) } else { Ok(()) }
     }
     fn handle_message(&mut self, msg: Message) {
         let (k, i) = (msg.header().kind, msg.header().id);
@@ -141,6 +145,7 @@ fn run(sc: &Scenario) -> Result<(), (&'static str, &'static str, String, String)
     LOG.lock().unwrap().clear();
     *SENDS.lock().unwrap() = sc.sends.clone();
     *CONSUME.lock().unwrap() = sc.consume_id;
+    *END_ERR.lock().unwrap() = sc.end_err;
     let mut sim = Sim::new(());
     sim.node("root", Node);
     let g_in = sim.gate("root", "in");
@@ -167,7 +172,8 @@ fn run(sc: &Scenario) -> Result<(), (&'static str, &'static str, String, String)
 }
 
 fn gen(r: &mut dyn FnMut() -> u64) -> Scenario {
-    let bitrate = [0usize, 8_000_000, 1_000_000, 512_000][(r() % 4) as usize];
+    // incl. a bitrate so high that size*8/bitrate rounds to 0 ns: the channel is then never busy
+    let bitrate = [0usize, 8_000_000, 1_000_000, 512_000, 10_000_000_000_000][(r() % 5) as usize];
     let latency_us = [0u64, 100, 1500][(r() % 3) as usize];
     let many = r() % 10 == 0;
     let n = if many { 22 + (r() % 20) as usize } else { 1 + (r() % 6) as usize };
@@ -187,7 +193,8 @@ fn gen(r: &mut dyn FnMut() -> u64) -> Scenario {
     let total: usize = sends.iter().map(|s| s.size + HEADER).sum();
     let policy = match r() % 4 { 0 => -2, 1 => -1, 2 => 0, _ => { let l = r() as usize % (total + 1); if r() % 2 == 0 { l as i64 } else { (sends[(r() as usize) % sends.len()].size + HEADER) as i64 * (1 + (r() % 2) as i64) } } };
     let consume_id = if r() % 5 == 0 { Some(1 + (r() % n as u64) as u16) } else { None };
-    Scenario { bitrate, latency_us, policy, sends, consume_id }
+    let end_err = r() % 6 == 0;
+    Scenario { bitrate, latency_us, policy, sends, consume_id, end_err }
 }
 
 fn main() {
@@ -204,8 +211,8 @@ fn main() {
         if let Err((kind, props, exp, got)) = run(&sc) {
             if filter.is_empty() || props.contains(filter.as_str()) {
                 let sends: Vec<String> = sc.sends.iter().map(|s| format!("[{},{},{}]", s.at_us, s.size, s.id)).collect();
-                println!("{{\"mismatch\":true,\"kind\":\"{}\",\"props\":\"{}\",\"scenario\":{{\"bitrate\":{},\"latency_us\":{},\"policy\":{},\"sends_at_us_size_id\":[{}],\"consume_id\":{}}},\"expected\":\"{}\",\"observed\":\"{}\"}}",
-                    kind, props, sc.bitrate, sc.latency_us, sc.policy, sends.join(","), sc.consume_id.map(|c| c as i64).unwrap_or(-1), exp.replace('"', "'"), got.replace('"', "'"));
+                println!("{{\"mismatch\":true,\"kind\":\"{}\",\"props\":\"{}\",\"scenario\":{{\"bitrate\":{},\"latency_us\":{},\"policy\":{},\"sends_at_us_size_id\":[{}],\"consume_id\":{},\"at_sim_end_returns_err\":{}}},\"expected\":\"{}\",\"observed\":\"{}\"}}",
+                    kind, props, sc.bitrate, sc.latency_us, sc.policy, sends.join(","), sc.consume_id.map(|c| c as i64).unwrap_or(-1), sc.end_err, exp.replace('"', "'"), got.replace('"', "'"));
                 std::process::exit(3);
             } else if other.is_empty() { other = format!("{} ({})", kind, props); }
         }
